@@ -60,6 +60,53 @@ def resolve(fn, e):
     return resolve_value(fn, e)
 
 
+def deadline_setter_rearms(ctx, rule):
+    """assigning a deadline to an active, un-cancelled scope stores it, drops the old timer and arms a new one on every path"""
+    dset = ctx.fn("CancelScope.deadline@setter", A)
+    val = dset.node.args.args[1].arg
+    store = ctx.sites(dset, f"self._deadline = float({val})") + ctx.sites(dset, f"self._deadline = {val}")
+    ctx.need(rule, dset, "the new deadline is stored", len(store), 1)
+    handle = F("self._timeout_handle")
+
+    def step_c(st, e, c):
+        if c.is_exc:
+            return st
+        if e == "rearm" and "store" not in st:
+            return Bad("the timer is re-armed before the new deadline was stored")
+        if e == "rearm" and "thcancel" in st and "thnone" not in st:
+            return Bad("re-armed while the old handle is still referenced")
+        return st | {e}
+
+    act, canc = F("self._active"), F("self._cancel_called")
+
+    def at_exit_c(kind, st, facts):
+        if kind != "return":
+            return None
+        if "store" not in st:
+            return "the deadline setter returns without storing the deadline"
+        if "thcancel" in st and "thnone" not in st:
+            return "old timer cancelled but still referenced"
+        if "rearm" not in st and (act[0], False) not in facts and (canc[0], True) not in facts:
+            return ("the deadline setter can return without re-arming the timer although the scope may be active and not cancelled "
+                    "(the new deadline never fires); only an inactive or already cancelled scope may skip the re-arm")
+        return None
+
+    def is_handle_test(frag, node):
+        return node.kind == "test" and atom(node.node)[0] in ("self._timeout_handle", "self._timeout_handle is None")
+
+    ctx.paths(rule, dset, [("store", [f"self._deadline = float({val})", f"self._deadline = {val}"]), ("thcancel", "self._timeout_handle.cancel()"),
+                              ("thnone", "self._timeout_handle = None"), ("rearm", "self._timeout()"), ("htest", [is_handle_test])], step_c,
+              frozenset(), at_exit_c, instance="deadline assignment re-arms")
+    ra = ctx.sites(dset, "self._timeout()")
+    if ctx.need(rule, dset, "`self._timeout()` in the setter", len(ra), 1):
+        ctx.require_at(rule, dset, ra[0][0], [["self._active", "not self._cancel_called", "not self._timeout_handle"],
+                                                ["self._active", "not self._cancel_called", "self._timeout_handle is None"]],
+                       instance="re-arm only for an active, un-cancelled scope, after the old timer was dropped")
+    tc = ctx.sites(dset, "self._timeout_handle.cancel()")
+    ctx.need(rule, dset, "the old timer is cancelled", len(tc), 1)
+
+
+
 def check(ctx):
     timeout = ctx.fn("CancelScope._timeout", A)
     enter = ctx.fn("CancelScope.__enter__", A)
@@ -119,47 +166,7 @@ def check(ctx):
                    by=("= None",))
 
     # ---- R06-c re-arm on assignment ----------------------------------------------------------------------------------------
-    val = dset.node.args.args[1].arg
-    store = ctx.sites(dset, f"self._deadline = float({val})") + ctx.sites(dset, f"self._deadline = {val}")
-    ctx.need("R06-c", dset, "the new deadline is stored", len(store), 1)
-    handle = F("self._timeout_handle")
-
-    def step_c(st, e, c):
-        if c.is_exc:
-            return st
-        if e == "rearm" and "store" not in st:
-            return Bad("the timer is re-armed before the new deadline was stored")
-        if e == "rearm" and "thcancel" in st and "thnone" not in st:
-            return Bad("re-armed while the old handle is still referenced")
-        return st | {e}
-
-    act, canc = F("self._active"), F("self._cancel_called")
-
-    def at_exit_c(kind, st, facts):
-        if kind != "return":
-            return None
-        if "store" not in st:
-            return "the deadline setter returns without storing the deadline"
-        if "thcancel" in st and "thnone" not in st:
-            return "old timer cancelled but still referenced"
-        if "rearm" not in st and (act[0], False) not in facts and (canc[0], True) not in facts:
-            return ("the deadline setter can return without re-arming the timer although the scope may be active and not cancelled "
-                    "(the new deadline never fires); only an inactive or already cancelled scope may skip the re-arm")
-        return None
-
-    def is_handle_test(frag, node):
-        return node.kind == "test" and atom(node.node)[0] in ("self._timeout_handle", "self._timeout_handle is None")
-
-    ctx.paths("R06-c", dset, [("store", [f"self._deadline = float({val})", f"self._deadline = {val}"]), ("thcancel", "self._timeout_handle.cancel()"),
-                              ("thnone", "self._timeout_handle = None"), ("rearm", "self._timeout()"), ("htest", [is_handle_test])], step_c,
-              frozenset(), at_exit_c, instance="deadline assignment re-arms")
-    ra = ctx.sites(dset, "self._timeout()")
-    if ctx.need("R06-c", dset, "`self._timeout()` in the setter", len(ra), 1):
-        ctx.require_at("R06-c", dset, ra[0][0], [["self._active", "not self._cancel_called", "not self._timeout_handle"],
-                                                ["self._active", "not self._cancel_called", "self._timeout_handle is None"]],
-                       instance="re-arm only for an active, un-cancelled scope, after the old timer was dropped")
-    tc = ctx.sites(dset, "self._timeout_handle.cancel()")
-    ctx.need("R06-c", dset, "the old timer is cancelled", len(tc), 1)
+    deadline_setter_rearms(ctx, "R06-c")
 
     # ---- R06-d fail_at / fail_after / move_on_* -----------------------------------------------------------------------------------
     fail_at = ctx.fn("fail_at", TASKS)
@@ -292,3 +299,10 @@ def check(ctx):
     pub = ctx.fn("current_effective_deadline", TASKS)
     s = ctx.sites(pub, "return get_async_backend().current_effective_deadline()")
     ctx.ob("R06-e", pub, "the public function delegates to the backend", len(s) == 1, detail="" if s else "no delegation", by=("delegation",))
+
+    # ---- R06-f a deadline that fires is not missed: its cancellation is delivered like any other (the level-triggered delivery loop,
+    # and the restart that finds a cancelled scope even if that scope is itself shielded) - shared with C03
+    from .c03 import delivery_loop
+    from .walkers import restart_walker
+    delivery_loop(ctx, "R06-f")
+    restart_walker(ctx, "R06-f")
